@@ -3,7 +3,16 @@ package main
 // splitmix64: every random choice of the harness derives from one seed.
 type rng struct{ s uint64 }
 
-func newRng(seed uint64) *rng { return &rng{s: seed*0x9E3779B97F4A7C15 + 0x1234567} }
+// newRng scrambles the seed first: the state advances by a constant per draw, so without this
+// the stream of seed n+1 would be the stream of seed n shifted by one draw (and a sweep over
+// consecutive seeds would repeat the same cases).
+func newRng(seed uint64) *rng {
+	z := seed + 0x9E3779B97F4A7C15
+	z = (z ^ (z >> 30)) * 0xBF58476D1CE4E5B9
+	z = (z ^ (z >> 27)) * 0x94D049BB133111EB
+	z ^= z >> 31
+	return &rng{s: z*0x9E3779B97F4A7C15 + 0x1234567}
+}
 
 func (r *rng) u64() uint64 {
 	r.s += 0x9E3779B97F4A7C15
